@@ -93,7 +93,10 @@ def run_one(cfg, ctx, fp=True):
         extra = dict(watch=list(peer.watch), open_end=opened(), leaked=len(loop.kern.socks) - opened())
 
         async def closing():
-            await inv._protocol.close()
+            try:
+                await inv._protocol.close()
+            except Exception:  # noqa: BLE001 - judged through the transports that stay open
+                pass
         loop.run(closing())
         loop.settle(0)
         gc.collect(1)
